@@ -56,11 +56,10 @@ Section Interp.
     | None => match rev fields with (_, t) :: _ => Some t | [] => None end
     end.
 
-  Fixpoint to_obj (fuel : nat) (t : ty) (v : val) {struct fuel} : res cbor :=
-    match fuel with O => Raise RecursionLimit | S f =>
+  Definition to_obj_body (rec : ty -> val -> res cbor) (t : ty) (v : val) : res cbor :=
     match t with
-    | TRef n => match lookup n env with Some t' => to_obj f t' v | None => Raise Unsupported end
-    | TCbstr t' => to_obj f t' v
+    | TRef n => match lookup n env with Some t' => rec t' v | None => Raise Unsupported end
+    | TCbstr t' => rec t' v
     | TAny | TInt | TUint | TBool | TNull | TTstr | TBchar | TEnum _ =>
         match v with VRaw c => Ok c | _ => Raise Unsupported end
     | TBstr | THex | TEmptyBstr =>
@@ -69,10 +68,10 @@ Section Interp.
         match v with VRaw (CBytes b) => Ok (CMap [(CText (s2b "raw"), hex_text b)]) | VRaw _ => Raise AttributeError | _ => Raise Unsupported end
     | TImageSize => match v with VRaw c => Ok (CMap [(CText (s2b "raw"), c)]) | _ => Raise Unsupported end
     | TEncInfoExt => Raise ValueError
-    | TDigestExt => to_obj f (TRef (s2b "SuitDigestRaw")) v
+    | TDigestExt => rec (TRef (s2b "SuitDigestRaw")) v
     | TUnion alts | TUnionHMO alts =>
         match v with
-        | VUnion i v' => match nth_error alts i with Some t' => to_obj f t' v' | None => Raise Unsupported end
+        | VUnion i v' => match nth_error alts i with Some t' => rec t' v' | None => Raise Unsupported end
         | _ => Raise Unsupported
         end
     | TTuple fields =>
@@ -87,7 +86,7 @@ Section Interp.
                    let* key := tuple_key names (length names) i in
                    match field_ty fields i with
                    | None => Raise GeneratorError
-                   | Some ft => let* o := to_obj f ft x in go r (S i) (dict_set acc (CText key) o)
+                   | Some ft => let* o := rec ft x in go r (S i) (dict_set acc (CText key) o)
                    end
                end) l O []
         | _ => Raise Unsupported
@@ -101,7 +100,7 @@ Section Interp.
                | (idx, x) :: r =>
                    match nth_error m idx with
                    | None => Raise Unsupported
-                   | Some e => let* o := to_obj f (key_ty e) x in go r (dict_set acc (CText (key_name e)) o)
+                   | Some e => let* o := rec (key_ty e) x in go r (dict_set acc (CText (key_name e)) o)
                    end
                end) l []
         | _ => Raise Unsupported
@@ -115,7 +114,7 @@ Section Interp.
                | (dk, (pi, _, vv)) :: r =>
                    match nth_error pairs pi with
                    | None => Raise Unsupported
-                   | Some (_, vt) => let* o := to_obj f vt vv in go r (dict_set acc dk o)
+                   | Some (_, vt) => let* o := rec vt vv in go r (dict_set acc dk o)
                    end
                end) l []
         | _ => Raise Unsupported
@@ -126,7 +125,7 @@ Section Interp.
             (fix go (l : list (cbor * (nat * val * val))) (acc : list (cbor * cbor)) : res cbor :=
                match l with
                | [] => Ok (CMap acc)
-               | (dk, (_, _, vv)) :: r => let* o := to_obj f vt vv in go r (dict_set acc dk o)
+               | (dk, (_, _, vv)) :: r => let* o := rec vt vv in go r (dict_set acc dk o)
                end) l []
         | _ => Raise Unsupported
         end
@@ -134,14 +133,18 @@ Section Interp.
         match v with
         | VSeq l =>
             (fix go (l : list val) : res (list cbor) :=
-               match l with [] => Ok [] | x :: r => let* o := to_obj f et x in let* os := go r in Ok (o :: os) end) l
+               match l with [] => Ok [] | x :: r => let* o := rec et x in let* os := go r in Ok (o :: os) end) l
             |> (fun r => let* os := r in Ok (CArray os))
         | _ => Raise Unsupported
         end
     | TList None _ => Raise Unsupported
     | TTag _ name t' =>
-        match v with VTagged x => let* o := to_obj f t' x in Ok (CMap [(CText name, o)]) | _ => Raise Unsupported end
-    end end.
+        match v with VTagged x => let* o := rec t' x in Ok (CMap [(CText name, o)]) | _ => Raise Unsupported end
+    end.
+
+  (* the recursive occurrences are eta-expanded so that strict evaluation (OCaml, vm_compute) unfolds them on demand *)
+  Fixpoint to_obj (fuel : nat) (t : ty) (v : val) {struct fuel} : res cbor :=
+    match fuel with O => Raise RecursionLimit | S f => to_obj_body (fun t' v' => to_obj f t' v') t v end.
 
   (* ------------------------------------------------------------------ to_cbor *)
   (* z in data.extend(z) for grouped lists *)
@@ -154,12 +157,11 @@ Section Interp.
     | _ => Raise TypeError
     end.
 
-  Fixpoint to_cbor (fuel : nat) (t : ty) (v : val) {struct fuel} : res bytes :=
-    match fuel with O => Raise RecursionLimit | S f =>
-    let item t' v' := let* b := to_cbor f t' v' in dec b in     (* self.deserialize_cbor(child.to_cbor()) *)
+  Definition to_cbor_body (rec : ty -> val -> res bytes) (t : ty) (v : val) : res bytes :=
+    let item t' v' := let* b := rec t' v' in dec b in     (* self.deserialize_cbor(child.to_cbor()) *)
     match t with
-    | TRef n => match lookup n env with Some t' => to_cbor f t' v | None => Raise Unsupported end
-    | TCbstr t' => let* b := to_cbor f t' v in Ok (ser (CBytes b))
+    | TRef n => match lookup n env with Some t' => rec t' v | None => Raise Unsupported end
+    | TCbstr t' => let* b := rec t' v in Ok (ser (CBytes b))
     | TAny | TInt | TUint | TBool | TNull | TTstr | TBstr | THex | TUUID | TImageSize | TEncInfoExt =>
         match v with VRaw c => Ok (ser c) | _ => Raise Unsupported end
     | TEmptyBstr => Ok []
@@ -172,10 +174,10 @@ Section Interp.
                     end
         | _ => Raise Unsupported
         end
-    | TDigestExt => to_cbor f (TRef (s2b "SuitDigestRaw")) v
+    | TDigestExt => rec (TRef (s2b "SuitDigestRaw")) v
     | TUnion alts | TUnionHMO alts =>
         match v with
-        | VUnion i v' => match nth_error alts i with Some t' => to_cbor f t' v' | None => Raise Unsupported end
+        | VUnion i v' => match nth_error alts i with Some t' => rec t' v' | None => Raise Unsupported end
         | _ => Raise Unsupported
         end
     | TTuple fields =>
@@ -285,7 +287,10 @@ Section Interp.
         end
     | TTag n _ t' =>
         match v with VTagged x => let* c := item t' x in Ok (ser (CTag n c)) | _ => Raise Unsupported end
-    end end.
+    end.
+
+  Fixpoint to_cbor (fuel : nat) (t : ty) (v : val) {struct fuel} : res bytes :=
+    match fuel with O => Raise RecursionLimit | S f => to_cbor_body (fun t' v' => to_cbor f t' v') t v end.
 
   (* ------------------------------------------------------------------ from_cbor *)
   Definition check_int (c : cbor) : bool := is_none c || is_int c.
@@ -314,13 +319,12 @@ Section Interp.
   Definition model_error (e : exn) : bool :=
     match e with Unsupported | Need _ _ | RecursionLimit => true | _ => false end.
 
-  Fixpoint from_cbor (fuel : nat) (t : ty) (b : bytes) {struct fuel} : res val :=
-    match fuel with O => Raise RecursionLimit | S f =>
+  Definition from_cbor_body (tobj : ty -> val -> res cbor) (rec : ty -> bytes -> res val) (t : ty) (b : bytes) : res val :=
     let union alts :=
       (fix go (alts : list ty) (i : nat) : res val :=
          match alts with
          | [] => Raise ValueError
-         | a :: r => match from_cbor f a b with
+         | a :: r => match rec a b with
                      | Ok x => Ok (VUnion i x)
                      | Raise ValueError => go r (S i)
                      | Raise e => Raise e
@@ -340,9 +344,9 @@ Section Interp.
                       | [] => Raise ValueError
                       | (kt, vt) :: ps' =>
                           let attempt :=
-                            let* kv := from_cbor f kt (ser k) in
-                            let* vv := from_cbor f vt (ensure_cbor x) in
-                            let* ko := to_obj f kt kv in
+                            let* kv := rec kt (ser k) in
+                            let* vv := rec vt (ensure_cbor x) in
+                            let* ko := tobj kt kv in
                             let* dk := match ko with CText _ => Ok ko | _ => let* s := json_dumps ko in Ok (CText s) end in
                             Ok (dk, (i, kv, vv)) in
                           match attempt with Raise ValueError => try ps' (S i) | other => other end
@@ -352,8 +356,8 @@ Section Interp.
       | _ => Raise ValueError
       end in
     match t with
-    | TRef n => match lookup n env with Some t' => from_cbor f t' b | None => Raise Unsupported end
-    | TCbstr t' => from_cbor f t' b
+    | TRef n => match lookup n env with Some t' => rec t' b | None => Raise Unsupported end
+    | TCbstr t' => rec t' b
     | TAny => let* c := dec b in Ok (VRaw c)
     | TTstr => let* c := dec b in if is_none c || is_str c then Ok (VRaw c) else Raise ValueError
     | TBool => let* c := dec b in if is_none c || is_bool c then Ok (VRaw c) else Raise ValueError
@@ -385,7 +389,7 @@ Section Interp.
                      (fix star (items : list cbor) (acc : list val) : res val :=
                         match items with
                         | [] => go fr [] acc
-                        | x :: ir => match from_cbor f ft (ensure_cbor x) with
+                        | x :: ir => match rec ft (ensure_cbor x) with
                                      | Ok y => star ir (y :: acc)
                                      | Raise ValueError | Raise IndexError => go fr items acc
                                      | Raise e => Raise e
@@ -394,7 +398,7 @@ Section Interp.
                    else
                      match items with
                      | [] => Raise ValueError
-                     | x :: ir => let* y := from_cbor f ft (ensure_cbor x) in go fr ir (y :: acc)
+                     | x :: ir => let* y := rec ft (ensure_cbor x) in go fr ir (y :: acc)
                      end
                end) fields items []
         | _ => Raise ValueError
@@ -408,7 +412,7 @@ Section Interp.
                | [] => Ok (VKV acc)
                | (k, x) :: r =>
                    match find_idx (fun e => py_eqb (cint (key_id e)) k) m O with
-                   | Some (idx, e) => let* y := from_cbor f (key_ty e) (ensure_cbor x) in go r (kv_set acc idx y)
+                   | Some (idx, e) => let* y := rec (key_ty e) (ensure_cbor x) in go r (kv_set acc idx y)
                    | None =>
                        match emb with
                        | None => Raise ValueError
@@ -423,7 +427,7 @@ Section Interp.
                                                | CBytes xb =>
                                                    match loads xb, lookup (s2b "SuitEnvelopeTaggedSimplified") env with
                                                    | Some (CTag tg _), Some (TTag n _ _) =>
-                                                       if tg =? n then from_cbor f (TRef (s2b "SuitEnvelopeTaggedSimplified")) xb
+                                                       if tg =? n then rec (TRef (s2b "SuitEnvelopeTaggedSimplified")) xb
                                                        else Raise SUITError
                                                    | _, _ => Raise SUITError
                                                    end
@@ -435,7 +439,7 @@ Section Interp.
                                       match find_idx (fun e => key_id e =? it) m O with
                                       | None => each ir acc
                                       | Some (idx, e) =>
-                                          match from_cbor f (key_ty e) (ser (CMap [(k, x)])) with
+                                          match rec (key_ty e) (ser (CMap [(k, x)])) with
                                           | Raise ValueError => each ir acc
                                           | Raise e' => Raise e'
                                           | Ok nv =>
@@ -452,7 +456,7 @@ Section Interp.
                                       match find_idx (fun e => key_id e =? -2) m O with
                                       | None => each ir acc
                                       | Some (idx, e) =>
-                                          match from_cbor f (key_ty e) (ser (CMap [(k, x)])) with
+                                          match rec (key_ty e) (ser (CMap [(k, x)])) with
                                           | Raise ValueError => each ir acc
                                           | Raise e' => Raise e'
                                           | Ok nv =>
@@ -475,7 +479,7 @@ Section Interp.
         match c with
         | CArray [k; x] =>
             match find_idx (fun e => py_eqb (cint (key_id e)) k) m O with
-            | Some (idx, e) => let* y := from_cbor f (key_ty e) (ensure_cbor x) in Ok (VKV [(idx, y)])
+            | Some (idx, e) => let* y := rec (key_ty e) (ensure_cbor x) in Ok (VKV [(idx, y)])
             | None => Raise ValueError
             end
         | _ => Raise ValueError
@@ -491,7 +495,7 @@ Section Interp.
                         | None => items
                         end in
             (fix go (l : list cbor) : res (list val) :=
-               match l with [] => Ok [] | x :: r => let* y := from_cbor f et (ensure_cbor x) in let* ys := go r in Ok (y :: ys) end) vals
+               match l with [] => Ok [] | x :: r => let* y := rec et (ensure_cbor x) in let* ys := go r in Ok (y :: ys) end) vals
             |> (fun r => let* ys := r in Ok (VSeq ys))
         | _ => Raise ValueError
         end
@@ -500,7 +504,7 @@ Section Interp.
         match c with
         | CArray items =>
             (fix go (l : list cbor) : res (list val) :=
-               match l with [] => Ok [] | x :: r => let* y := from_cbor f et (ensure_cbor x) in let* ys := go r in Ok (y :: ys) end) items
+               match l with [] => Ok [] | x :: r => let* y := rec et (ensure_cbor x) in let* ys := go r in Ok (y :: ys) end) items
             |> (fun r => let* ys := r in Ok (VSeq ys))
         | _ => Raise ValueError
         end
@@ -516,17 +520,20 @@ Section Interp.
                | O => if sum =? bitval then Ok (VSeq (rev acc)) else Raise ValueError
                | S k' =>
                    if Z.testbit bitval bit
-                   then let* y := from_cbor f bt (ser (cint (2 ^ bit))) in go k' (bit + 1) (sum + 2 ^ bit) (y :: acc)
+                   then let* y := rec bt (ser (cint (2 ^ bit))) in go k' (bit + 1) (sum + 2 ^ bit) (y :: acc)
                    else go k' (bit + 1) sum acc
                end) (Z.to_nat n) 0 0 []
         end
     | TTag n _ t' =>
         let* c := dec b in
         match c with
-        | CTag tg x => if tg =? n then let* y := from_cbor f t' (ser x) in Ok (VTagged y) else Raise SUITError
+        | CTag tg x => if tg =? n then let* y := rec t' (ser x) in Ok (VTagged y) else Raise SUITError
         | _ => Raise SUITError
         end
-    end end.
+    end.
+
+  Fixpoint from_cbor (fuel : nat) (t : ty) (b : bytes) {struct fuel} : res val :=
+    match fuel with O => Raise RecursionLimit | S f => from_cbor_body (fun t' v' => to_obj f t' v') (fun t' b' => from_cbor f t' b') t b end.
 
   (* ------------------------------------------------------------------ envelope operations (suit/envelope.py) *)
   Definition map_of (t : ty) : option (list (bytes * Z * ty)) :=
@@ -571,7 +578,7 @@ Section Interp.
     | _ => Raise AttributeError
     end.
 
-  Definition get_manifest_digest (fuel : nat) (root : bytes) (e : val) (alg : cbor) : res bytes :=
+  Definition get_manifest_digest (tc : ty -> val -> res bytes) (root : bytes) (e : val) (alg : cbor) : res bytes :=
     match e, envelope_map root with
     | VTagged (VKV ents), Some em =>
         match find_idx (fun x => key_id x =? 3) em O with
@@ -579,13 +586,13 @@ Section Interp.
         | Some (mi, me) =>
             match kv_get ents mi with
             | None => Raise KeyError
-            | Some mv => let* mb := to_cbor fuel (key_ty me) mv in hash_of alg mb
+            | Some mv => let* mb := tc (key_ty me) mv in hash_of alg mb
             end
         end
     | _, _ => Raise AttributeError
     end.
 
-  Definition update_digest (fuel : nat) (root : bytes) (e : val) : res val :=
+  Definition update_digest (tc : ty -> val -> res bytes) (root : bytes) (e : val) : res val :=
     match e, envelope_map root with
     | VTagged (VKV ents), Some em =>
         match find_idx (fun x => key_id x =? 2) em O with
@@ -595,7 +602,7 @@ Section Interp.
             | None => Raise KeyError
             | Some (VSeq (d :: blocks)) =>
                 let* alg := digest_alg d in
-                let* h := get_manifest_digest fuel root e alg in
+                let* h := get_manifest_digest tc root e alg in
                 let* d' := digest_set d h in
                 Ok (VTagged (VKV (kv_set ents ai (VSeq (d' :: blocks)))))
             | Some (VSeq []) => Raise IndexError
@@ -605,7 +612,7 @@ Section Interp.
     | _, _ => Raise AttributeError
     end.
 
-  Definition update_severable_digests (fuel : nat) (root : bytes) (e : val) : res val :=
+  Definition update_severable_digests (tc : ty -> val -> res bytes) (root : bytes) (e : val) : res val :=
     match e, envelope_map root with
     | VTagged (VKV ents), Some em =>
         match find_idx (fun x => key_id x =? 3) em O with
@@ -630,7 +637,7 @@ Section Interp.
                                       match kv_get ents ei with
                                       | None => Ok ments                      (* KeyError: member not in the envelope *)
                                       | Some ev =>
-                                          let* data := to_cbor fuel (key_ty ee) ev in
+                                          let* data := tc (key_ty ee) ev in
                                           let* h := hash_of alg data in
                                           let* dv' := digest_set dv h in
                                           Ok (kv_set ments si (VUnion ai dv'))
@@ -650,9 +657,9 @@ Section Interp.
     | _, _ => Raise AttributeError
     end.
 
-  Definition apply_steps (fuel : nat) (root : bytes) (steps : list Z) (e : val) : res val :=
-    foldM (fun e st => if st =? 1 then update_severable_digests fuel root e
-                       else if st =? 2 then update_digest fuel root e else Raise Unsupported) steps e.
+  Definition apply_steps (tc : ty -> val -> res bytes) (root : bytes) (steps : list Z) (e : val) : res val :=
+    foldM (fun e st => if st =? 1 then update_severable_digests tc root e
+                       else if st =? 2 then update_digest tc root e else Raise Unsupported) steps e.
 
   (* ------------------------------------------------------------------ from_obj *)
   Definition version_part (p : pystr) : res cbor :=
@@ -681,22 +688,22 @@ Section Interp.
     | _ => Raise ValueError
     end.
 
-  Fixpoint from_obj (fuel : nat) (t : ty) (o : cbor) {struct fuel} : res val :=
-    match fuel with O => Raise RecursionLimit | S f =>
+  Definition from_obj_body (tcbor : ty -> val -> res bytes) (fcbor : ty -> bytes -> res val)
+                           (rec : ty -> cbor -> res val) (t : ty) (o : cbor) : res val :=
     (* SuitEnvelopeTagged.return_processed_binary_data *)
     let processed (x : cbor) : res bytes :=
       match x with
       | CMap _ =>
           let root := s2b "SuitEnvelopeTagged" in
-          let* e := from_obj f (TRef root) x in
-          let* e2 := apply_steps f root steps_processed e in
-          to_cbor f (TRef root) e2
+          let* e := rec (TRef root) x in
+          let* e2 := apply_steps tcbor root steps_processed e in
+          tcbor (TRef root) e2
       | _ => read_file x
       end in
-    let raw_tuple (t' : ty) (d : list (cbor * cbor)) : res val := from_obj f t' (CMap d) in
+    let raw_tuple (t' : ty) (d : list (cbor * cbor)) : res val := rec t' (CMap d) in
     match t with
-    | TRef n => match lookup n env with Some t' => from_obj f t' o | None => Raise Unsupported end
-    | TCbstr t' => from_obj f t' o
+    | TRef n => match lookup n env with Some t' => rec t' o | None => Raise Unsupported end
+    | TCbstr t' => rec t' o
     | TAny => Ok (VRaw o)
     | TInt => if check_int o then Ok (VRaw o) else Raise ValueError
     | TUint => if check_uint o then Ok (VRaw o) else Raise ValueError
@@ -717,7 +724,7 @@ Section Interp.
         (fix go (alts : list ty) (i : nat) : res val :=
            match alts with
            | [] => Raise ValueError
-           | a :: r => match from_obj f a o with
+           | a :: r => match rec a o with
                        | Ok x => Ok (VUnion i x)
                        | Raise ValueError => go r (S i)
                        | Raise e => Raise e
@@ -726,12 +733,12 @@ Section Interp.
     | TUnionHMO alts =>
         let pos (nm : bytes) := find_idx (fun a => match a with TRef n => list_eqb n nm | _ => false end) alts O in
         let empty := match pos (s2b "SuitEmptyBstr") with
-                     | Some (i, a) => let* x := from_obj f a (CText []) in Ok (VUnion i x)
+                     | Some (i, a) => let* x := rec a (CText []) in Ok (VUnion i x)
                      | None => Raise Unsupported end in
         match o with
         | CMap [] => empty
         | CMap _ => match pos (s2b "SuitHeaderMap") with
-                    | Some (i, a) => let* x := from_obj f a o in Ok (VUnion i x)
+                    | Some (i, a) => let* x := rec a o in Ok (VUnion i x)
                     | None => Raise Unsupported end
         | CText [] | CBytes [] => empty
         | _ => Raise ValueError
@@ -744,7 +751,7 @@ Section Interp.
                | [] => Ok (VSeq (rev acc))
                | (k, ft) :: fr =>
                    match dict_get d (CText k) with
-                   | Some x => let* y := from_obj f ft x in go fr (y :: acc)
+                   | Some x => let* y := rec ft x in go fr (y :: acc)
                    | None =>
                        if ends_with_star k then
                          let pre := replace_star k [] in
@@ -752,7 +759,7 @@ Section Interp.
                             match ks with
                             | [] => go fr acc
                             | (CText kk, x) :: kr =>
-                                if starts_with kk pre then let* y := from_obj f ft x in subs kr (y :: acc) else subs kr acc
+                                if starts_with kk pre then let* y := rec ft x in subs kr (y :: acc) else subs kr acc
                             | _ :: _ => Raise AttributeError
                             end) d acc
                        else Raise ValueError
@@ -768,7 +775,7 @@ Section Interp.
                | [] => Ok (VKV acc)
                | (k, x) :: r =>
                    match find_idx (fun e => py_eqb (CText (key_name e)) k) m O with
-                   | Some (idx, e) => let* y := from_obj f (key_ty e) x in go r (kv_set acc idx y)
+                   | Some (idx, e) => let* y := rec (key_ty e) x in go r (kv_set acc idx y)
                    | None => Raise ValueError
                    end
                end) d []
@@ -789,11 +796,11 @@ Section Interp.
                           let* kv :=
                             match k with
                             | CText ks =>
-                                catch_value (let* j := json_loads ks in from_obj f kt j) (from_obj f kt k)
-                            | CBytes ks => catch_value (let* j := json_loads ks in from_obj f kt j) (from_obj f kt k)
+                                catch_value (let* j := json_loads ks in rec kt j) (rec kt k)
+                            | CBytes ks => catch_value (let* j := json_loads ks in rec kt j) (rec kt k)
                             | _ => Raise TypeError
                             end in
-                          let* vv := from_obj f vt x in
+                          let* vv := rec vt x in
                           Ok (i, kv, vv) in
                         match attempt with Raise ValueError => try ps' (S i) | other => other end
                     end) pairs O in
@@ -816,14 +823,14 @@ Section Interp.
                  | CArray _ | CBytes _ => Raise Unsupported
                  | _ => Raise TypeError
                  end in
-               let attempt := let* kv := from_obj f kt k in let* vv := from_obj f vt data in Ok (O, kv, vv) in
+               let attempt := let* kv := rec kt k in let* vv := rec vt data in Ok (O, kv, vv) in
                let* hit := attempt in
                go r (kvu_set acc k hit)
            end) d []
     | TList (Some et) _ =>
         let* items := iter_obj o in
         (fix go (l : list cbor) : res (list val) :=
-           match l with [] => Ok [] | x :: r => let* y := from_obj f et x in let* ys := go r in Ok (y :: ys) end) items
+           match l with [] => Ok [] | x :: r => let* y := rec et x in let* ys := go r in Ok (y :: ys) end) items
         |> (fun r => let* ys := r in Ok (VSeq ys))
     | TList None _ => let* items := iter_obj o in match items with [] => Ok (VSeq []) | _ => Raise AttributeError end
     | TComponentVersion et =>
@@ -833,20 +840,20 @@ Section Interp.
                    end in
         let* items := iter_obj o' in
         (fix go (l : list cbor) : res (list val) :=
-           match l with [] => Ok [] | x :: r => let* y := from_obj f et x in let* ys := go r in Ok (y :: ys) end) items
+           match l with [] => Ok [] | x :: r => let* y := rec et x in let* ys := go r in Ok (y :: ys) end) items
         |> (fun r => let* ys := r in Ok (VSeq ys))
     | TBitfield bt _ =>
         match o with
         | CArray items =>
             (fix go (l : list cbor) : res (list val) :=
-               match l with [] => Ok [] | x :: r => let* y := from_obj f bt x in let* ys := go r in Ok (y :: ys) end) items
+               match l with [] => Ok [] | x :: r => let* y := rec bt x in let* ys := go r in Ok (y :: ys) end) items
             |> (fun r => let* ys := r in Ok (VSeq ys))
         | _ => Raise ValueError
         end
     | TTag _ name t' =>
         match o with
         | CMap d => match dict_get d (CText name) with
-                    | Some x => let* y := from_obj f t' x in Ok (VTagged y)
+                    | Some x => let* y := rec t' x in Ok (VTagged y)
                     | None => Raise ValueError
                     end
         | _ => Raise ValueError
@@ -937,11 +944,11 @@ Section Interp.
                           | Some x =>
                               let root := s2b "SuitEnvelopeTagged" in
                               let* e := match x with
-                                        | CMap _ => from_obj f (TRef root) x
-                                        | _ => let* c := read_file x in from_cbor f (TRef root) c
+                                        | CMap _ => rec (TRef root) x
+                                        | _ => let* c := read_file x in fcbor (TRef root) c
                                         end in
-                              let* e2 := apply_steps f root steps_digest_ext e in
-                              let* h := get_manifest_digest f root e2 alg in
+                              let* e2 := apply_steps tcbor root steps_digest_ext e in
+                              let* h := get_manifest_digest tcbor root e2 alg in
                               Ok (CText (hex_of_bytes h))
                           | None =>
                               match sget dd "raw" with
@@ -960,14 +967,20 @@ Section Interp.
             end
         | _ => Raise ValueError
         end
-    end end.
+    end.
+
+  Fixpoint from_obj (fuel : nat) (t : ty) (o : cbor) {struct fuel} : res val :=
+    match fuel with
+    | O => Raise RecursionLimit
+    | S f => from_obj_body (fun t' v' => to_cbor f t' v') (fun t' b' => from_cbor f t' b') (fun t' o' => from_obj f t' o') t o
+    end.
 
   (* ------------------------------------------------------------------ entry points *)
   (* InputOutputMixin.prepare_suit_data / SuitEnvelopeTagged.return_processed_binary_data *)
   Definition create (fuel : nat) (o : cbor) : res bytes :=
     let root := s2b "SuitEnvelopeTagged" in
     let* e := from_obj fuel (TRef root) o in
-    let* e2 := apply_steps fuel root steps_prepare e in
+    let* e2 := apply_steps (fun t' v' => to_cbor fuel t' v') root steps_prepare e in
     to_cbor fuel (TRef root) e2.
 
   (* InputOutputMixin.from_suit_file: SuitEnvelopeTagged.from_cbor(data).to_obj() *)
